@@ -701,7 +701,7 @@ pub fn check(a: &CheckArgs) -> i32 {
     let runs_per_hour = if batch_wall > 0.0 { g.runs as f64 * 3600.0 / batch_wall } else { 0.0 };
     let rule = match property {
         "C18" => "plan = f(seed): request/response workload + positional forgeries (byte flip per region, truncate, extend, foreign tag, splice, foreign credentials, synthesised secret-control) in families forge / forge_forget; non-trivial = at least one forged datagram that differs from its original was delivered AND stream bytes were read after the first fault; distinct = hash of the per-datagram (direction, fate, label, kind) sequence plus delivery order. Map driver cases are counted separately (coverage.map_driver).",
-        _ => "plan = f(seed): families clean (1/10), finite faults (6/10), peer vanished (3/10); non-trivial = (clean/finite) at least one fault fired AND stream bytes were read after it, (vanish) the vanish point was reached while a client task was still running; distinct = hash of the per-datagram (direction, fate, label, kind) sequence plus delivery order",
+        _ => "plan = f(seed): families clean (1/20), sparse loss (1/20: short exchanges, 1-5 single losses at low ordinals, a stream error is a verdict), finite faults (6/10), peer vanished (3/10); non-trivial = (clean/finite) at least one fault fired AND stream bytes were read after it, (vanish) the vanish point was reached while a client task was still running; distinct = hash of the per-datagram (direction, fate, label, kind) sequence plus delivery order",
     };
     let mut coverage = json!({
         "evaluations": g.runs,
